@@ -12,8 +12,9 @@ GO_PKGS = [("c11drv", True)]
 MODEL_VO = ["theories/C11/Corr.vo"]
 ALLOWED_AXIOMS = []
 SCOPE = ("partial: theorems of Properties/C11.v hold for every history of the modelled operations (lock, top-up, MsgLockTokens, lock-and-delegate, "
-         "create-position-and-delegate, superfluid delegate / undelegate / unbond / undelegate-and-unbond incl. partial, begin-unlock (whole, partial, all, "
-         "force), withdraw, time advance, end-block cleanup, epoch refresh with arbitrary new multipliers) over any number of validators, owners, denoms; "
+         "create-position-and-delegate, superfluid delegate / undelegate / unbond / undelegate-and-unbond incl. partial, unbond-convert-and-stake of a lock, "
+         "begin-unlock (whole, partial, all, force), withdraw, time advance, end-block cleanup, epoch refresh with arbitrary new multipliers) over any number of "
+         "validators, owners, denoms; "
          "slashing (x/superfluid/keeper/slash.go): the model function `slash` mirrors it for gamm-share locks and is compared with the real app in the "
          "correspondence run; the marker / unlock-refusal / withdraw-refusal / accumulator theorems hold for histories with slashes (fractions <= 1/2) in "
          "between, the stake-tracking theorems (refresh_exact, drift) and supply neutrality are for slash-free histories only - supply neutrality is "
@@ -274,6 +275,17 @@ def gen_case(r, tier, force=None):
             if i is None:
                 continue
             ops.append({"k": "withdraw", "id": i})
+        elif x < 81:
+            # MsgUnbondConvertAndStake: the lock leaves lockup whatever its state and is staked as plain OSMO
+            i = pick(lambda l: l["st"] != "gone")
+            if i is None:
+                continue
+            l = locks[i]
+            o = l["owner"] if not r.chance(1, 10) else r.below(3)
+            v = r.below(nval) if not r.chance(1, 10) else nval
+            ops.append({"k": "convert", "o": o, "id": i, "v": v})
+            if o == l["owner"] and v < nval and denoms[l["d"]]["kind"] == "gamm":
+                l["st"] = "gone"
         elif x < 85:
             ops.append({"k": "adv", "dt": r.choice([SEC, 3600 * SEC, U // 2, U - 1, U, U + 1, 2 * U, r.range(1, 2 * U)])})
         elif x < 88:
@@ -399,7 +411,7 @@ def model_flat(o, nd, nv):
     return f
 
 
-def coq_op(op, prev, c, order):
+def coq_op(op, prev, c, order, cur=None):
     k = op["k"]
     z = zlit
     if k in ("lock", "cllock"):
@@ -422,6 +434,10 @@ def coq_op(op, prev, c, order):
         return "OBeginUnlockAll %s" % z(op["o"])
     if k == "forceunlock":
         return "OForceUnlock %s %s" % (z(op["o"]), z(op["id"]))
+    if k == "convert":
+        # the OSMO obtained from the pool exit and swaps is an environment input (reported by the message); an environment
+        # failure (code 97: pool exit / swap) is an input too
+        return "OConvert %s %s %s %s %s" % (z(op["o"]), z(op["id"]), z(op["v"]), z(cur["newid"] if cur["code"] == 0 else 1), "false" if cur["code"] == 97 else "true")
     if k == "withdraw":
         return "OWithdraw %s" % z(op["id"])
     if k == "adv":
@@ -497,7 +513,7 @@ def coq_case(c, o):
             order = []
             if k == "epoch":
                 order = o["ord"][ei]
-            ops.append(coq_op(op, prev, c, order))
+            ops.append(coq_op(op, prev, c, order, cur))
         if k in ("epoch", "slash"):
             ei += 1
         keep.append(i + 1)
@@ -506,7 +522,8 @@ def coq_case(c, o):
     for i in keep:
         exp += model_flat(rows[i], nd, nv)
     sf = "[" + "; ".join(zlit(d) for d, dn in enumerate(c["denoms"]) if dn["sf"]) + "]"
-    cfg = "(mkCfg %s %s %s [%s])" % (zlit(U), zlit(dec_raw(c["rf"])), sf, "; ".join(zlit(x) for x in c.get("force", [])))
+    gm = "[" + "; ".join(zlit(d) for d, dn in enumerate(c["denoms"]) if dn["kind"] == "gamm") + "]"
+    cfg = "(mkCfg %s %s %s [%s] %s)" % (zlit(U), zlit(dec_raw(c["rf"])), sf, "; ".join(zlit(x) for x in c.get("force", [])), gm)
     vals = "[" + "; ".join("(%s, mkVal %s %s)" % (zlit(v), zlit(t), zlit(s)) for v, (t, s) in enumerate(r0["vals"])) + "]"
     mults = "[" + "; ".join("(%s, %s)" % (zlit(d), zlit(m)) for d, m in enumerate(r0["mult"])) + "]"
     dn = "[" + "; ".join(zlit(d) for d in range(nd)) + "]"
@@ -604,7 +621,21 @@ def oracle(c, o):
                         bad("marker_undelegating", i, "unstaking synthetic lock end moved %d -> %d" % (was[0][4], s[4]))
                     if len(ss) != 1:
                         bad("marker_undelegating", i, "lock %d has several synthetic locks %s" % (lid, ss))
+        converted = op["id"] if (k == "convert" and r["code"] == 0) else None
+        if converted is not None:
+            # the conversion message is the designed exception: the lock leaves lockup at once, but nothing is released - the
+            # reported amount (possibly 0 for a dust lock) must be staked with the chosen validator (on top of what the undelegation took away)
+            vv_ = op["v"]
+            grew = r["vals"][vv_][0] - p["vals"][vv_][0]
+            dropped = sum(p["acc"][(d_, vv_)]["tokens"] - r["acc"][(d_, vv_)]["tokens"] for d_ in range(nd))
+            tol_ = 0 if p["vals"][vv_][1] == p["vals"][vv_][0] * P18 else 2 + abs(dropped) // 10 ** 12
+            if r["newid"] < 0 or abs(grew + dropped - r["newid"]) > tol_:
+                bad("conversion_not_staked", i, "conversion reports %d staked, validator %d grew by %d (+ %d undelegated)" % (r["newid"], vv_, grew, dropped))
+            if converted in locks or converted in conn or converted in synths:
+                bad("conversion_not_staked", i, "converted lock %d still has lock / connection / synthetic lock" % converted)
         for lid, ss in psynths.items():
+            if lid == converted:
+                continue
             for s in ss:
                 if s[1] == 1 and r["now"] < s[4]:
                     # before maturity the marker stays and the lock cannot be withdrawn
@@ -635,8 +666,10 @@ def oracle(c, o):
             # undelegated by a superfluid message; it never starts unlocking, shrinks or disappears while connected
             if lid in plocks and plocks[lid][5] == 0:
                 now_l = locks.get(lid)
-                undelegating_op = k in ("sfundel", "sfundelunbond") and op["id"] == lid
-                if now_l is None:
+                undelegating_op = k in ("sfundel", "sfundelunbond", "convert") and op["id"] == lid
+                if now_l is None and undelegating_op and k == "convert":
+                    pass
+                elif now_l is None:
                     bad("unlock_while_delegated", i, "delegated lock %d disappeared" % lid)
                 elif not undelegating_op and k != "slash" and (now_l[5] != 0 or now_l[3] < plocks[lid][3]):
                     bad("unlock_while_delegated", i, "delegated lock %d: end %d -> %d, amount %d -> %d" % (lid, plocks[lid][5], now_l[5], plocks[lid][3], now_l[3]))
